@@ -22,9 +22,14 @@ A *script* is plain data (JSON-able):
         {"t": "ch2", "row": r, "s": str, "f2": bool, "ctl": name|None}  burst for channel 2 (or field-2 code), ignored by channel 1
   every control-bearing item may carry "single": True (sent once instead of twice)
 
-flatten(script) gives the SCC lines and, for every word, its line, its index on the line, and what the generator meant by it.
-The grammar is enforced by construction in the strategies and *validated* again in flatten() (GrammarError), so that a shrunk
-or hand-written script cannot silently leave the protocol.
+flatten(script) gives the SCC lines and, for every word, its line, its index on the line, and what the generator meant by it;
+render(script) the Scenarist text.  The grammar is enforced by construction in the strategies and *validated* again in flatten()
+(GrammarError), so that a shrunk or hand-written script cannot silently leave the protocol.
+
+profile(**switches) selects the classes: styles / mix (styles inside one file, always separated by EDM), the feature switches
+(indent, to, pac_attr, mid, special, extended, bs, pad, ch2, f2, parity, df, brk_rows, edm_pre, cr_no_pac), the labelled classes
+(undoubled, row_order, roll_base, pad_inside, paint_accumulate, mid_runs, pop_leftover) and the switches that let the triggers of
+known reader defects in (paint_c1, italics_on_colour, trailing_mid, paint_c4; all off in the main classes, see vt/props/c08.py).
 """
 from hypothesis import strategies as st
 
@@ -233,15 +238,15 @@ def _items(em, items, width, mode, flat, pen="white"):
         flat.labels.add("double-space")
     elif t == "mid":
       em.code(enc_mid(it["color"], it["ul"]), "mid", single)
-      if it["color"] is None and pen != "white":
+      prev = [x for x in items[:idx] if x["t"] not in ("pad", "ch2")]
+      pair = False
+      if prev and prev[-1]["t"] == "mid":
+        pair = prev[-1]["color"] is not None and it["color"] is None and prev[-1]["ul"] == it["ul"] and \
+            not (len(prev) > 1 and prev[-2]["t"] == "mid")
+        flat.labels.add("mid-row-colour+italics-pair" if pair else "mid-row-run")
+      if it["color"] is None and pen != "white" and not pair:
         flat.labels.add("italics-mid-row-code-after-colour")
       pen = it["color"] or pen
-      prev = [x for x in items[:idx] if x["t"] not in ("pad", "ch2")]
-      if prev and prev[-1]["t"] == "mid":
-        if prev[-1]["color"] is not None and it["color"] is None and prev[-1]["ul"] == it["ul"] and not (len(prev) > 1 and prev[-2]["t"] == "mid"):
-          flat.labels.add("mid-row-colour+italics-pair")
-        else:
-          flat.labels.add("mid-row-run")
       used += 1
       flat.attr_changes += 1
       flat.labels.add("mid-row-code")
@@ -513,8 +518,9 @@ def _row_items(draw, width, prof, mode, pen_color="white"):
       if items and items[-1]["t"] == "mid" and not prof["mid_runs"]:
         continue            # back-to-back mid-row codes: only the colour+italics pair is something an encoder sends
       colors = COLORS + [None]
-      if pen_color != "white" and not prof["italics_on_colour"]:
-        colors = COLORS          # see C08 finding "italics mid-row code after a colour": kept out of the main classes
+      if pen_color != "white":
+        # C08 finding C-2 (italics mid-row code after a colour): kept out of the main classes, frequent in the dedicated one
+        colors = COLORS + [None] * 6 if prof["italics_on_colour"] else COLORS
       it = single({"t": "mid", "color": draw(st.sampled_from(colors)), "ul": draw(st.integers(0, 3)) == 0})
       if prof["ch2"] and draw(st.integers(0, 7)) == 0:
         items.append(draw(_burst(prof)))
@@ -543,6 +549,8 @@ def _row_items(draw, width, prof, mode, pen_color="white"):
       if used + 1 > limit:
         continue
       items.append(single({"t": "bs", "s": draw(st.sampled_from(PLAIN))}))
+  if prof["trailing_mid"] and not full and used + 1 <= limit and draw(st.booleans()):
+    items.append(single({"t": "mid", "color": draw(st.sampled_from(COLORS + [None])), "ul": draw(st.booleans())})); used += 1
   if full and used < width:
     s = draw(_phrase(width - used, prof["rich"]))
     s = (s + "xxxxxxxxxxxxxxxxxxxxxxxxxxxxxxxx")[:width - used]
@@ -551,7 +559,39 @@ def _row_items(draw, width, prof, mode, pen_color="white"):
     items.append({"t": "txt", "s": "Z"})
   if prof["pad"] and (mode == "pop" or prof["pad_inside"]) and draw(st.integers(0, 5)) == 0:
     items.insert(draw(st.integers(0, len(items))), {"t": "pad", "n": draw(st.integers(1, 6))})
+  if mode == "paint" and not prof["paint_c4"]:
+    _avoid_c4(items)
   return items
+
+
+def _avoid_c4(items):
+  """C08 finding C-4 (paint-on: a character pair ending in a blank that opens a run gets no attributes) would be hit by a quarter of
+  the paint-on streams.  Unless the profile asks for it, no one-character word followed by a blank starts on a pair boundary: the
+  blank after it becomes a hyphen.  Pairs are formed from the characters sent between two control codes / paddings."""
+  run = []      # (item, key) sources of the characters sent back to back
+
+  def fix():
+    chars = [c for it, key in run for c in it[key]]
+    for i in range(0, len(chars) - 1, 2):
+      if chars[i] != " " and chars[i + 1] == " " and (i == 0 or chars[i - 1] == " "):
+        chars[i + 1] = "-"
+    pos = 0
+    for it, key in run:
+      n = len(it[key])
+      it[key] = "".join(chars[pos:pos + n])
+      pos += n
+    del run[:]
+
+  for it in items:
+    if it["t"] == "txt":
+      run.append((it, "s"))
+      continue
+    if it["t"] == "ext":
+      run.append((it, "fb"))
+    elif it["t"] == "bs":
+      run.append((it, "s"))
+    fix()
+  fix()
 
 
 @st.composite
@@ -713,7 +753,7 @@ def profile(**kw):
   p = dict(styles=("pop", "roll", "paint"), mix=False, max_caps=5, max_rows=4, indent=True, to=True, pac_attr=True, mid=True, special=True,
            extended=True, bs=True, rich=True, pad=True, pad_inside=False, ch2=True, f2=True, undoubled=False, brk_rows=True,
            row_order=False, contiguous=False, pop_leftover=False, edm_pre=True, cr_no_pac=True, roll_base=False,
-           paint_accumulate=False, paint_c1=False, parity=True, df=True, italics_on_colour=False, mid_pairs=True, mid_runs=False, trailing_mid=False)
+           paint_accumulate=False, paint_c1=False, paint_c4=False, parity=True, df=True, italics_on_colour=False, mid_pairs=True, mid_runs=False, trailing_mid=False)
   for k in kw:
     if k not in p:
       raise KeyError(k)
@@ -895,14 +935,6 @@ def simplifications(script):
           n = copy.deepcopy(r); n["items"][k] = dict(it, color="white", ul=False); yield rowmk(n)
       if cap["style"] != "roll" and r["row"] != 15 and 15 not in _rows_of(cap):
         pass
-
-
-def valid(script):
-  try:
-    flatten(script)
-    return True
-  except GrammarError:
-    return False
 
 
 CLASS_LABELS = ("undoubled-control", "mid-row-run", "row-ends-with-mid-row-code", "italics-mid-row-code-after-colour",
